@@ -233,7 +233,8 @@ func (s *Server) followCheckSome(addr string, followc int, auth string,
 	if err != nil {
 		return 0, err
 	}
-	if pos == fullpos {
+	if pos == fullpos && pos == int64(s.aofsz) {
+		// everything we have was compared
 		if s.opts.ShowDebugMessages {
 			log.Debug("follow: aof fully intact")
 		}
